@@ -110,7 +110,10 @@ SCOPE_KEY = "std::thread::scoped::scope"
 
 def ap_families(crate):
     out = set()
+    away = getattr(crate, "inlined_away", set())
     for p in crate.fn_paths():
+        if crate.prog.fns[p].get("root", p) in away:
+            continue        # a private helper (`fn rows_per_worker(order)`) inlined into every caller: judged there
         an = crate.an(p)
         for ev in an.events:
             if ev["k"] == "call" and ev["key"] == AP_KEY:
@@ -374,6 +377,30 @@ def _disjoint_store(crate, an, fx, ev):
         pass
     if idx is not None and _is_partition_var(an, fx, idx):
         return True
+    # an item of an iteration over a `&mut` slice the worker captured by value (a chunk handed out by chunks_mut): the
+    # borrow checker gives the worker exclusive access to it
+    from .origin import payload_of as _pl
+    a_ = ev.get("addr")
+    site_, path_ = _pl(a_) if a_ is not None else (None, None)
+    if site_ is not None:
+        nev = fx.an_call_at(site_[1])
+        d_ = fx.iter_desc(nev) if nev is not None and nev["key"] == ITER_NEXT else None
+        caps = an.f.get("captures", [])
+
+        def excl(t, depth=0):
+            if depth > 6 or not isinstance(t, tuple) or not t or t == "CYCLE":
+                return False
+            if t[0] in ("at", "addr") and isinstance(t[1], str):
+                for k, cp in enumerate(caps):
+                    if cp["ty"].get("k") == "ref" and cp["ty"].get("mut") and cp["mode"] == "ByValue" and \
+                            t[1] in ("A1.%d*" % k, "L1.%d*" % k):
+                        return True
+                return False
+            if t[0] == "call" and t[3]:
+                return any(excl(x, depth + 1) for x in t[3])
+            return False
+        if d_ and excl(d_):
+            return True
     # element of a captured &mut container (degree_sequence: local_indegrees)
     for k, cp in enumerate(an.f.get("captures", [])):
         if cp["ty"].get("k") == "ref" and cp["ty"].get("mut") and ("A1.%d" % k in reg or "L1.%d" % k in reg):
@@ -565,6 +592,11 @@ def _chunk_def(crate, an, c):
     d = div_ceil_of(c)
     if d:
         return d
+    if c[0] == "max" and any(x[0] == "const" for x in c[1:]):
+        # div_ceil(n, t).max(1): the clamp only matters for n = 0
+        oth = [x for x in c[1:] if x[0] != "const"]
+        if len(oth) == 1:
+            return _chunk_def(crate, an, oth[0])
     cm = capture_map(crate, an)
     if cm is not None:
         for pv, cv in cm.valmap:
